@@ -164,6 +164,7 @@ def evI (R : Ro) (m : M) : Expr → Option Int
       pure (if isU m.us a then usubI x y else x - y)
   | .bin "*" a b => do let x ← evI R m a; let y ← evI R m b; pure (x * y)
   | .arg (.call (.var "int")) a => (evI R m a).map (fun x => if isU m.us a then toIntI x else x)
+  | .arg (.call (.var "uint")) (.arg (.call (.var "len")) (.var "v1.Children")) => some (m.cs.length : Int)   -- `len` is a non-negative `int`
   | .arg (.call (.var "uint")) a => (evI R m a).map toUintI
   | .arg (.call (.var "uint16")) a => evI R m a
   | .arg (.call (.var "len")) (.var "v1.Children") => some (m.cs.length : Int)
